@@ -4,7 +4,9 @@ from fractions import Fraction
 CFG = dict(
     bins=["c04"],
     imports=["Run.RunC04"],
-    rule="two-series family (ts_vcov, ts_vcorr, ts_vregx_alpha/beta/all, ts_vregx_resid_mean/std/skew): pairs of "
+    rule="audit corner inputs: 9 length pairs (equal / second shorter / second longer / empty) x w in 0..=3 x mp in "
+         "{omitted, 0, 1} x the 8 two-series functions x 6 paths, and the 5 trend functions with w = 0, comparing the "
+         "identity of the failing check (custom:chk); then two-series family (ts_vcov, ts_vcorr, ts_vregx_alpha/beta/all, ts_vregx_resid_mean/std/skew): pairs of "
          "equal-length series, exhaustive over the alphabet {-1, 0, 2, null}^2 per position up to length 2 (every "
          "(w, mp); every function up to length 1, a rotating third of the functions at length 2; thorough adds length 3 "
          "with a rotating 1/36 of the (w, mp) configurations) + 260 (thorough 1200) structured random pairs of length "
@@ -29,7 +31,16 @@ CFG = dict(
                "window gives, for every pair of equal-length series, window >= 1, min_periods, position and both driver "
                "bodies, closed-form theorems output_i = textbook statistic of the window for all 13 entry points; the OLS "
                "coefficients are characterised by the normal equations, uniqueness and SSE-minimality; a perfect linear "
-               "window has zero residuals. The model is tied to the code by the differential run.",
+               "window has zero residuals (also end to end on the two-series model). Audit (21 more theorems, "
+               "Proofs/Audit04.v; notes/C04.md has the clause x theorem matrix): the hypotheses 'window >= 1' and 'equal "
+               "lengths' are replaced by a total description of the two-series entry points - the first failing check of "
+               "the code (index body: length assertion, then window assertion; iterator body: window assertion on the "
+               "first series only), window 0, and on every accepted input the value theorems over the common prefix; the "
+               "pairwise-complete selection positionally; and, for EVERY numeric carrier (binary64 included) and every "
+               "pair of null dictionaries, the accumulator's count = number of pairwise-complete positions of the window, "
+               "hence all 13 statistics are null below min_periods (axiom-free). Closed forms remain exact-real only. "
+               "The model is tied to the code by the differential run, which now includes window 0 and unequal lengths "
+               "and compares which assertion fired.",
     level_note="Trusted: Coq kernel + Reals axioms; the model of binary.rs / reg.rs / agg.rs (vmean, vmean_var, vskew); "
                "f64::mul_add modelled unfused (two roundings); IEEE rounding is outside the theorems (exact reals) and absorbed "
                "by the 1e-7 tolerance; f64::powi modelled as compiler-rt's square-and-multiply.",
@@ -53,7 +64,7 @@ def _fval(c):
 
 
 def compare(cmp, ci, cm):
-    """custom:sing:<rtol>,<scale> — model cells are values ++ [sep] ++ one singular flag per value cell.
+    """custom:sing:<rtol>,<scale> (and custom:chk:<rtol>,<scale>: the same after an exactly compared leading cell) — model cells are values ++ [sep] ++ one singular flag per value cell.
     Where the flag is 1 the implementation must have produced *a value* (number / null / inf), nothing else is checked;
     elsewhere: nullness, infinities, panics and uninitialised slots exact, numbers within rtol*max(1,|a|,|b|,scale)."""
     parts = cmp.split(":")
@@ -63,6 +74,11 @@ def compare(cmp, ci, cm):
         rtol = float(ps[0])
         if len(ps) > 1:
             scale = float(ps[1])
+    if len(parts) > 1 and parts[1] == "chk":
+        # audit corner inputs: the first cell is the identity of the check that stopped the run (0 = none)
+        if not ci or not cm or tuple(ci[0]) != tuple(cm[0]):
+            return "first failing check: impl %s, model %s" % (ci[:1], cm[:1])
+        ci, cm = ci[1:], cm[1:]
     seps = [k for k, c in enumerate(cm) if c[0] == 9]
     if not seps:
         return "model output has no separator"
